@@ -1662,7 +1662,7 @@ func genC17Whole(g *Rng, thorough bool, emit func(Op)) {
 	type plan struct {
 		bits, nbases, valueAlts int
 	}
-	plans := []plan{{48, 1 + g.intn(2), 40}}
+	plans := []plan{{48, 2, 40}} // two bases: dropped / swapped base lists exist in every run
 	if thorough {
 		plans = []plan{{48, 1 + g.intn(4), 115}, {56 + g.intn(41), 1 + g.intn(4), 35}}
 	}
